@@ -703,7 +703,7 @@ func execFn(x *fw.Ctx, c *Case) {
 		x.Cover("mode:raw")
 	}
 	scope := newScope()
-	form, emptyValues, herr := buildForm(scope, c)
+	form, _, herr := buildForm(scope, c)
 	if herr != "" {
 		x.Fail("harness-pool", "%s", herr)
 		return
@@ -739,12 +739,6 @@ func execFn(x *fw.Ctx, c *Case) {
 		obs["condition"] = oc.err.Class
 	case "fault":
 		x.Cover("outcome:internal-fault")
-		if emptyValues && oc.fault == "index[len0]" {
-			// the evaluator itself (Function.Eval takes vs[0] of an argument's
-			// values) faults before the function is entered
-			x.Fail("fault=index[len0] evaluator arg=(values)", "%s => internal fault reported as %s: %s", renderCall(c), oc.err.Class, oc.err.Msg)
-			break
-		}
 		x.Fail(fnSig(c, "fault="+oc.fault)+again, "%s%s => internal fault reported as %s: %s", renderCall(c),
 			map[bool]string{true: " [the same form evaluated a second time]", false: ""}[again != ""], oc.err.Class, oc.err.Msg)
 	case "raw-panic":
@@ -819,12 +813,17 @@ func init() {
 		ID: "C09",
 		Rule: "(1) every exported function of every linked package (run-time enumeration; documented denylist of functions whose purpose is an effect outside " +
 			"the process or blocking) in quoted-argument mode and, for special forms/macros, additionally with the bare objects at unevaluated positions, x every 0-, 1- " +
-			"and 2-tuple of a pool of 58 fresh representative objects (thorough: exhaustive; quick: all 0/1-tuples, all pairs of a 17-object pool, a seeded sample of " +
-			"the rest), x every 3-tuple of a 14-object pool for functions that accept 3 arguments, x every documented &key with every pool value behind plausible " +
-			"required arguments, plus seeded 4..5-tuples and keyword combinations; (2) format control strings: every directive x modifier x parameter shape x pool " +
-			"argument, block/unbalanced templates, then seeded compositions; (3) reader: every byte string of length <=3 over a 40-byte alphabet, all #-dispatch " +
-			"pairs, 1 MiB / 10 000-deep stress texts, seeded mutations of a corpus, through 4 delivery paths. One call/read per case, argument objects built afresh " +
-			"for every case. distinct = distinct case; non-trivial = not an avoided construct (skip table / non-terminating by definition)",
+			"and 2-tuple of a pool of 66 fresh objects: the representative objects of all types plus hostile ones (2^40, 2^62, 2^70, -2^63 as counts and indices, " +
+			"improper lists, a 4000-deep list, strings with invalid UTF-8 and NUL, closed streams and channel, symbols with the prefix of an unknown package, (values)); " +
+			"thorough: exhaustive; quick: all 0/1-tuples, all pairs of a 20-object pool, seeded samples of the rest; every 1-tuple also with the form evaluated twice " +
+			"(destructive functions on their own literal); every 3-tuple of a 14-object pool for functions that accept 3 arguments; every documented &key with every " +
+			"pool value, and with the value missing, the key duplicated, a non-keyword or unknown keyword in key position; seeded 4..5-tuples; (2) 1 300 hostile " +
+			"program texts read and evaluated plainly and through Code.Compile: misuse of every special form and definer, dotted forms, quasi-quote misuse, reader " +
+			"labels, unknown package prefixes, destructive functions on literals in loops, 2 000..10 000-deep nested programs, unbounded recursion; (3) format: " +
+			"every directive x modifier x parameter shape x pool argument, block/unbalanced templates, seeded compositions (only: no host fault); (4) reader: every " +
+			"byte string of length <=3 over a 40-byte alphabet, all #-dispatch pairs, 1 MiB / 10 000-deep stress texts, seeded corpus mutations, 4 delivery paths. " +
+			"One call/read per case, argument objects built afresh for every case. distinct = distinct case; non-trivial = not an avoided construct; every avoided " +
+			"construct is counted under avoided:<reason> (skip table entry with its finding, or non-terminating by definition)",
 		N:                func(tier string) int { return total(getLayout(tier)) },
 		Gen:              gen,
 		Exec:             exec,
